@@ -7,15 +7,21 @@ files truncated at EVERY byte cut (each followed by a second poll of the same re
 the complete file), on all pairs of cuts of the smallest files and on seeded random longer
 sequences of cuts; and of the real GromacsRunner.get_gromacs_frames / read_remaining_trr /
 read_trr_header / get_data (gromacs.py), driven without a gmx binary by a scripted writer
-(a stand-in process object and a `sleep` that grows the file), against the TRR state machine.
+(a stand-in process object and a `sleep` that grows the file), against the TRR state machine;
+and of the same loop against EVERY interleaving of the writer with the loop's observations
+(check_poll / getsize): the file grows and GROMACS exits (code 0) between any two of them, the
+reachable (program point, local variables, bytes on disk) states are explored exhaustively and
+every run is compared with the observation-level model (trr_step) for every final size.
 Oracle: the literal statement — frames returned == frames completely on disk, each once, in
 order, with exactly the written values, nothing raised — evaluated on the implementation.
 """
 import importlib.util  # noqa: F401
+import collections
 import io
 import itertools
 import os
 import struct
+import sys
 
 import numpy as np
 
@@ -24,9 +30,9 @@ import common
 META = {
     "id": "C13",
     "level": "proof",
-    "technique": "Coq theorems over byte/line-level executable models of xyz_reader, lammpstrj_reader, ReadAndProcessOnTheFly and the TRR polling loop (every byte cut, every non-decreasing poll sequence, unbounded) + exhaustive every-cut lock-step of the extracted model vs the real readers and the real GROMACS TRR loop",
-    "text": "Unbounded theorems, closed under the global context: for every list of well-formed frames (any atom count, any whitespace-free number tokens, LAMMPS ids in any order, 2- or 3-column box lines) and EVERY byte cut of the file, the xyz and LAMMPS readers raise nothing, return exactly the frames wholly inside the cut with exactly the written tokens and advance the position by exactly their bytes (C13_xyz_no_torn, C13_lammps_no_torn); for every non-decreasing sequence of cuts polled with one reader object each poll returns exactly the frames completed since the previous poll, so the concatenation is every complete frame once, in order, and all frames once the writer is done (…_incremental, …_complete_after_writer); the LAMMPS value is characterised independently of the reader (row of atom id at index id-1, box rows = tokens of lines 5..7); for the GROMACS TRR loop, on sizes: every header/data read starts at a block boundary, has the block's length and ends inside the bytes on disk when issued, frames are handed out 0,1,2,… once each, and after GROMACS exits all frames have been handed out and all bytes consumed (C13_trr_never_reads_past_size, C13_trr_quiescent_complete, instantiated with TRR_HEAD_SIZE and the header sizes extracted from gromacs.py). The behaviour before the repair of lead L1 is refuted by vm_compute witnesses (C13_*_old_reader_*). The models are tied to /repo on every run by running the extracted model and the real code on the same files at every single byte cut (+ second poll on the whole file), all pairs of cuts of the smallest files and random longer poll sequences, comparing frames, file position and raised/not raised; the literal statement is evaluated on the implementation's results.",
-    "note": "Trusted: Coq kernel; extraction (ExtrOcamlBasic) + ocaml/c13_driver.ml; this harness (generators, canonicalisation as float64 bytes, the ground truth = float() of the tokens the generator wrote and their byte offsets). Modelled, not verified: readline()/tell()/seek() of Python text files on ASCII content without carriage returns (readline = split after every newline, tell = byte offset), str.split() on ASCII white space, int()/float() on plain decimal tokens (float()/numpy string conversion is an uninterpreted decidable token predicate in the theorems; the runner instantiates it with a decimal-literal automaton), os.path.getsize and BufferedReader.read on a growing file. The theorems assume one atom count per file (the LAMMPS reader reads N only in the first frame of a poll) and, for TRR, one header size per file not larger than TRR_HEAD_SIZE. TRR is covered at the level of sizes and offsets (which block is read when, with how many bytes on disk); the decoding of a complete block by struct.unpack is exercised by the harness (both byte orders, both precisions, all block subsets) but not modelled in Coq. The real gmx program is replaced by a scripted writer: a stand-in for the Popen object whose poll() turns non-None once the script is exhausted and a replacement of gromacs.sleep that appends the next chunk; start()/stop()/reopen_file (inode change) are not exercised. Observation: because the first header is only read once TRR_HEAD_SIZE (1000) bytes are on disk, frames of a file shorter than that are handed out only after GROMACS exits — late, never torn. Observation: get_gromacs_frames does not look at poll() while waiting for the data block of a frame, so a GROMACS process that dies inside a frame makes it wait forever (a hang, not a torn frame; outside this property).",
+    "technique": "Coq theorems over byte/line-level executable models of xyz_reader, lammpstrj_reader, ReadAndProcessOnTheFly and the TRR polling loop (every byte cut, every non-decreasing poll sequence, unbounded) + an observation-level state machine of the TRR loop (one transition per check_poll/getsize, GROMACS may write and exit between any two) with the no-complete-frame-lost theorem for every interleaving + exhaustive every-cut lock-step of the extracted model vs the real readers and the real GROMACS TRR loop, and exhaustive exploration of the writer/reader interleavings of the real loop on small TRR files",
+    "text": "Unbounded theorems, closed under the global context: for every list of well-formed frames (any atom count, any whitespace-free number tokens, LAMMPS ids in any order, 2- or 3-column box lines) and EVERY byte cut of the file, the xyz and LAMMPS readers raise nothing, return exactly the frames wholly inside the cut with exactly the written tokens and advance the position by exactly their bytes (C13_xyz_no_torn, C13_lammps_no_torn); for every non-decreasing sequence of cuts polled with one reader object each poll returns exactly the frames completed since the previous poll, so the concatenation is every complete frame once, in order, and all frames once the writer is done (…_incremental, …_complete_after_writer); the LAMMPS value is characterised independently of the reader (row of atom id at index id-1, box rows = tokens of lines 5..7); for the GROMACS TRR loop, on sizes: every header/data read starts at a block boundary, has the block's length and ends inside the bytes on disk when issued, frames are handed out 0,1,2,… once each, and after GROMACS exits all frames have been handed out and all bytes consumed (C13_trr_never_reads_past_size, C13_trr_quiescent_complete, instantiated with TRR_HEAD_SIZE and the header sizes extracted from gromacs.py). Writer against EVERY observation point of the TRR loop: get_gromacs_frames learns about the world only through check_poll() and os.path.getsize(); the model trr_step has one transition per such observation (program points: outer poll, header getsize, data getsize, the poll and the SECOND getsize of the 'GROMACS has ended' guard inside the wait-for-data loop, the two getsize of the final read) and a schedule gives the bytes on disk at every observation made while GROMACS runs, the index of the observation that first sees it ended with code 0 (any index, hence any program point — in particular between the getsize that says 'data not ready' and the check_poll that follows) and the final size. For every schedule whose observations never exceed the final size the generator returns and hands out exactly the frames completely inside the final size, each once, in order, every read lying inside the bytes on disk when issued (C13_trr_every_interleaving; C13_trr_complete_frames_exist: such a frame count exists for every final size); with the constants of gromacs.py and GROMACS having written everything, no complete frame is lost for any interleaving (C13_trr_no_complete_frame_lost). The loop that decides 'ended and incomplete' with the size read BEFORE check_poll() — no second getsize — is refuted: it returns with two complete frames lost (C13_trr_stale_size_refuted). The behaviour before the repair of lead L1 is refuted by vm_compute witnesses (C13_*_old_reader_*). The models are tied to /repo on every run by running the extracted model and the real code on the same files at every single byte cut (+ second poll on the whole file), all pairs of cuts of the smallest files and random longer poll sequences, comparing frames, file position and raised/not raised; for TRR additionally by driving the real get_gromacs_frames with a scripted process object and file against every interleaving over a set of byte positions (all thresholds the loop compares with, +-1/+-2, and mid-header / mid-data positions) of 2-, 3- and 4-frame files in both precisions — exhaustive over the position before each observation, the observation at which GROMACS is seen ended, and the final size, with states of identical (line, locals, attributes, offset, bytes on disk) merged — comparing the sequence of check_poll/getsize calls, every read and every yield with trr_step; the literal statement is evaluated on the implementation's results (frames handed out == frames completely on disk at the end, written values, nothing raised) and a failing schedule is reported as replay.",
+    "note": "Trusted: Coq kernel; extraction (ExtrOcamlBasic) + ocaml/c13_driver.ml; this harness (generators, canonicalisation as float64 bytes, the ground truth = float() of the tokens the generator wrote and their byte offsets). Modelled, not verified: readline()/tell()/seek() of Python text files on ASCII content without carriage returns (readline = split after every newline, tell = byte offset), str.split() on ASCII white space, int()/float() on plain decimal tokens (float()/numpy string conversion is an uninterpreted decidable token predicate in the theorems; the runner instantiates it with a decimal-literal automaton), os.path.getsize and BufferedReader.read on a growing file. The theorems assume one atom count per file (the LAMMPS reader reads N only in the first frame of a poll) and, for TRR, one header size per file not larger than TRR_HEAD_SIZE. TRR is covered at the level of sizes and offsets (which block is read when, with how many bytes on disk); the decoding of a complete block by struct.unpack is exercised by the harness (both byte orders, both precisions, all block subsets) but not modelled in Coq. The real gmx program is replaced by a scripted writer: a stand-in for the Popen object whose poll() turns non-None once the script is exhausted and a replacement of gromacs.sleep that appends the next chunk; start()/stop()/reopen_file (inode change) are not exercised. Observation: because the first header is only read once TRR_HEAD_SIZE (1000) bytes are on disk, frames of a file shorter than that are handed out only after GROMACS exits — late, never torn. In the interleaving family the file is an in-memory append-only object (read/tell/seek), poll() and getsize() are answered from the schedule and gromacs.sleep is a no-op, so the runs are deterministic (no clock, no thread); merging of equivalent states reads the generator frame's line number and local variables through sys._getframe (a state the harness cannot see — none exists today: the loop's state is its locals, the runner's attributes and the file offset — would make the exploration incomplete, not unsound). A non-zero return code makes check_poll raise (a failed run, by design) and is not scheduled. Observation (outside the property, which is about partial writes of an output that gets completed): if gmx exits with code 0 leaving a PARTIAL last frame, the wait-for-data guard stops cleanly, but when the exit is noticed by the outer check_poll, read_remaining_trr reads into the partial frame and raises struct.error (read_struct_buff only turns an empty read into the handled EOFError); such schedules are counted (trr_schedules_outside_property) and not judged.",
     "design_ref": "4/C13",
 }
 LEVEL = "proof"
@@ -606,6 +612,391 @@ def run_trr(ctx, runner, G, path, rng, tier, stats):
     return head
 
 
+# --------------------------------------------------------------------------- TRR: writer against every observation
+
+class ReaderHangs(BaseException):
+    """The loop keeps sleeping although GROMACS has ended."""
+
+
+class SchedWorld:
+    """The writer, seen from the reader.  `answers[k]` bytes are on disk at the k-th observation
+    (check_poll or getsize) made while GROMACS is running; from observation number len(answers) on
+    GROMACS has ended with return code 0 and `fin` bytes are on disk."""
+
+    def __init__(self, data, answers, fin):
+        self.data, self.answers, self.fin = data, answers, fin
+        self.cur = 0
+        self.obs = 0
+        self.ended = False
+        self.kinds = []
+        self.sizes = []          # values returned by getsize
+        self.events = []
+        self.bad_reads = []
+        self.pos_ok = 0          # file offset after the last block that was read successfully
+        self.sleeps_after_end = 0
+        self.frontier = None     # (kind, state key) at the first observation after the scripted ones
+        self.key_fn = None
+
+    def observe(self, kind):
+        i = self.obs
+        if i < len(self.answers):
+            self.cur = self.answers[i]
+        else:
+            if i == len(self.answers) and self.key_fn is not None:
+                self.frontier = (kind, self.key_fn())
+            self.cur = self.fin
+            self.ended = True
+        self.obs += 1
+        self.kinds.append(kind)
+
+
+class GrowFile:
+    """The open TRR file: only the first world.cur bytes exist (append-only writer)."""
+
+    def __init__(self, world):
+        self.w = world
+        self.pos = 0
+        self.closed = False
+
+    def read(self, n=-1):
+        w = self.w
+        end = w.cur if n is None or n < 0 else min(self.pos + n, w.cur)
+        b = w.data[self.pos:end] if end > self.pos else b""
+        if n is None or n < 0 or len(b) != n:
+            w.bad_reads.append((self.pos, n, len(b), w.cur))
+        self.pos += len(b)
+        return b
+
+    def tell(self):
+        return self.pos
+
+    def seek(self, off, whence=0):
+        self.pos = off if whence == 0 else (self.pos + off if whence == 1 else self.w.cur + off)
+        return self.pos
+
+    def fileno(self):
+        raise OSError("scripted file: no descriptor")
+
+    def close(self):
+        self.closed = True
+
+
+class SchedProc:
+    """Stands for the subprocess.Popen object: poll() is an observation of the writer."""
+    stdin = stdout = stderr = None
+    pid = -1
+
+    def __init__(self, world):
+        self.w = world
+        self.returncode = None
+
+    def poll(self):
+        self.w.observe("p")
+        if self.w.ended:
+            self.returncode = 0
+        return self.returncode
+
+    def wait(self, timeout=None):
+        return 0
+
+
+def canon_val(v):
+    if v is None or isinstance(v, (bool, int, float, str, bytes)):
+        return v
+    if isinstance(v, np.ndarray):
+        return ("nd", v.shape, v.dtype.str, v.tobytes())
+    if isinstance(v, dict):
+        return tuple(sorted((str(k), canon_val(x)) for k, x in v.items()))
+    if isinstance(v, (list, tuple)):
+        return tuple(canon_val(x) for x in v)
+    return ("obj", type(v).__name__)
+
+
+class SchedHarness:
+    """Runs the REAL GromacsRunner.get_gromacs_frames against a SchedWorld: gromacs.os.path.getsize,
+    the process object's poll(), gromacs.sleep (a no-op: no clock, no thread) and the file object are
+    scripted; read_trr_header / get_data / read_remaining_trr are the real ones (wrapped to log)."""
+
+    def __init__(self, G):
+        self.G = G
+        self.world = None
+        self.code = G.GromacsRunner.get_gromacs_frames.__code__
+        harness = self
+        real_os = G.os
+
+        class _Path:
+            def __getattr__(s, n):
+                return getattr(real_os.path, n)
+
+            def getsize(s, p):
+                w = harness.world
+                w.observe("s")
+                w.sizes.append(w.cur)
+                return w.cur
+
+        class _Os:
+            path = _Path()
+
+            def __getattr__(s, n):
+                return getattr(real_os, n)
+
+        self.saved = (G.sleep, G.os, G.read_trr_header, G.get_data)
+        real_header, real_data = G.read_trr_header, G.get_data
+
+        def rec_header(fh):
+            w = harness.world
+            at = fh.tell()
+            h, n = real_header(fh)
+            w.events.append(f"H:{at}:{n}:{w.sizes[-1] if w.sizes else '?'}")
+            w.pos_ok = at + n
+            return h, n
+
+        def rec_data(fh, header):
+            w = harness.world
+            at = fh.tell()
+            d, n = real_data(fh, header)
+            got = fh.tell() - at
+            w.events.append(f"D:{at}:{n}:{w.sizes[-1] if w.sizes else '?'}" + ("" if got == n else f"!consumed{got}"))
+            w.pos_ok = at + got
+            return d, n
+
+        def fake_sleep(_t):
+            w = harness.world
+            if w.ended:
+                w.sleeps_after_end += 1
+                if w.sleeps_after_end > 40:
+                    raise ReaderHangs()
+
+        G.sleep, G.os, G.read_trr_header, G.get_data = fake_sleep, _Os(), rec_header, rec_data
+
+    def restore(self):
+        G = self.G
+        G.sleep, G.os, G.read_trr_header, G.get_data = self.saved
+
+    def state_key(self, runner):
+        """Everything the future of the loop depends on: the line it is at, all its local variables,
+        the runner's attributes and the file offset (the caller adds the bytes on disk)."""
+        f = sys._getframe()
+        while f is not None and f.f_code is not self.code:
+            f = f.f_back
+        if f is None:
+            return ("outside get_gromacs_frames",)
+        loc = tuple(sorted((k, canon_val(v)) for k, v in f.f_locals.items() if k != "self"))
+        return (f.f_lineno, loc, runner.bytes_read, runner.header_size, runner.data_size, runner.stop_read,
+                runner.fileh.tell())
+
+    def run(self, data, answers, fin, want_key=False):
+        G = self.G
+        w = SchedWorld(data, answers, fin)
+        self.world = w
+        runner = G.GromacsRunner([], "/nonexistent/traj.trr", "/nonexistent/ener.edr", "/nonexistent")
+        runner.running = SchedProc(w)
+        runner.fileh = GrowFile(w)
+        runner.ino = -1
+        runner.bytes_read = 0
+        runner.stop_read = False
+        if want_key:
+            w.key_fn = lambda: self.state_key(runner)
+        yielded = []
+        exn = None
+        try:
+            for d in runner.get_gromacs_frames():
+                w.events.append(f"Y:{len(yielded)}")
+                yielded.append(d)
+        except ReaderHangs:
+            exn = "the loop keeps waiting (40 sleeps) although GROMACS has ended"
+        except Exception as ex:  # noqa: BLE001
+            exn = type(ex).__name__ + ": " + str(ex)[:80]
+        finally:
+            runner.running = None   # nothing to stop in __del__
+            runner.stop_read = True
+        return yielded, exn, w
+
+
+def sched_positions(frames, head, width):
+    """Byte counts the writer can have reached at an observation: 0, every header end and frame end
+    (the thresholds the loop compares with) -width..+width, TRR_HEAD_SIZE likewise, and one position
+    inside every header and inside every data block (header complete / data incomplete)."""
+    total = frames[-1]["end"]
+    P = {0, total}
+    marks = [head]
+    for fr in frames:
+        start = fr["end"] - fr["ds"] - fr["hs"]
+        marks += [start + fr["hs"], fr["end"]]
+        P.add(start + fr["hs"] // 2)
+        if fr["ds"] > 1:
+            P.add(fr["end"] - fr["ds"] // 2)
+    for t in marks:
+        for dlt in range(-width, width + 1):
+            if 0 <= t + dlt <= total:
+                P.add(t + dlt)
+    return sorted(P)
+
+
+def sched_oracle(yielded, exn, w, frames, fin):
+    """The literal statement on one finished run: None or what is wrong."""
+    exp = [fr for fr in frames if fr["end"] <= fin]
+    if exn:
+        return f"get_gromacs_frames raised / did not return: {exn}"
+    if w.bad_reads:
+        p, n, g, dsk = w.bad_reads[0]
+        return f"a read of {n} bytes at offset {p} was issued with {dsk} bytes on disk (got {g})"
+    if len(yielded) != len(exp):
+        return (f"{len(yielded)} frame(s) handed out, {len(exp)} are completely on disk "
+                f"({fin} bytes written when GROMACS exited with code 0) — "
+                + ("complete frames are never returned" if len(yielded) < len(exp) else "a frame that is not completely on disk was returned"))
+    for i, (d, fr) in enumerate(zip(yielded, exp)):
+        if not trr_data_equal(d, fr):
+            return f"frame {i} differs from the written values"
+    return None
+
+
+# program points of the model -> kind of observation
+PC_KIND = {"P": "p", "G": "p", "h": "s", "d": "s", "g": "s", "f": "s", "r": "s"}
+
+
+def explore_schedules(H, data, frames, P):
+    """Exhaustive exploration of the writer/reader interleavings over the position set P.
+
+    A node is a list of answers given while GROMACS runs (one per observation: the bytes on disk;
+    a check_poll observation only sees 'still running').  Its successors: the next observation is
+    answered with any position >= the current one (getsize), or 'still running' (poll).  At every
+    node GROMACS may instead have ended, with any final size >= the current one: a leaf, i.e. one
+    complete run of the real generator.  Two nodes in which the loop is at the same line with the
+    same local variables, attributes and file offset, and the same bytes on disk, have the same
+    future: the second one is not expanded (this also closes the waiting cycles)."""
+    seen = set()
+    queue = collections.deque([()])     # breadth first: every state is reached by a shortest schedule
+    leaves, early = [], []
+    while queue:
+        prefix = queue.popleft()
+        cur = prefix[-1] if prefix else 0
+        fins = [p for p in P if p >= cur]
+        first = H.run(data, list(prefix), fins[-1], want_key=True)
+        if first[2].frontier is None:
+            early.append((prefix,) + first)
+            continue
+        kind, key = first[2].frontier
+        if (key, cur) in seen:
+            continue
+        seen.add((key, cur))
+        for fin in fins:
+            y, exn, w = first if fin == fins[-1] else H.run(data, list(prefix), fin)
+            leaves.append((prefix, fin, y, exn, w))
+        if kind == "p":
+            queue.append(prefix + (cur,))
+        else:
+            for s_ in fins:
+                queue.append(prefix + (s_,))
+    return leaves, early, len(seen)
+
+
+def run_trr_sched(ctx, runner, G, rng, tier, stats):
+    head = int(G.TRR_HEAD_SIZE)
+    quick = tier == "quick"
+    # (atoms, blocks): frame sizes below / around / above TRR_HEAD_SIZE, in both precisions
+    shapes = [(1, ("x",)), (3, ("box", "x")), (12, ("box", "x", "v")), (24, ("x", "v")), (40, ("box", "x", "v")),
+              (73, ("x",)), (76, ("x",)), (8, ("box", "vir", "pres", "x", "v", "f"))]
+    if not quick:
+        shapes += [(2, ("v",)), (5, ("box", "f")), (17, ("x", "v", "f")), (36, ("x",)), (60, ("box", "x")), (90, ("x", "v"))]
+    plans = []
+    for si, (na, bl) in enumerate(shapes):
+        for nf in (2, 3, 4):
+            for db in (False, True):
+                en = "<>"[(si + nf + db) % 2]
+                plans.append((en, db, na, nf, bl))
+    H = SchedHarness(G)
+    reqs, metas = [], []
+    n_or_fail = n_early = 0
+    try:
+        for (en, db, na, nf, bl) in plans:
+            data, frames = gen_trr(rng, en, db, na, nf, bl)
+            total = len(data)
+            width = (2 if nf == 2 else 1) if quick else (3 if nf == 2 else 2)
+            P = sched_positions(frames, head, width)
+            desc = {"endian": en, "double": db, "natoms": na, "frames": nf, "blocks": list(bl), "bytes": total,
+                    "frame_bytes": frames[0]["end"], "header_bytes": frames[0]["hs"], "positions": len(P)}
+            leaves, early, nstates = explore_schedules(H, data, frames, P)
+            stats["sched_states"] += nstates
+            ctx.dist(f"trr_sched:{'double' if db else 'single'}:{nf} frames", len(leaves))
+            ctx.dist("trr_sched:frame " + ("< " if frames[0]["end"] < head else ">= ") + "TRR_HEAD_SIZE", len(leaves))
+            lay = ",".join(f"{fr['hs']}:{fr['ds']}" for fr in frames)
+            bounds = {0} | {fr["end"] for fr in frames}
+            for (prefix, y, exn, w) in early:
+                n_early += 1
+                if n_early <= MAXV:
+                    ctx.violation(
+                        "C13 statement fails on the implementation (GROMACS TRR loop): get_gromacs_frames "
+                        + (f"raised {exn}" if exn else "returned") + " while GROMACS is still running and writing "
+                        f"({len(y)} frame(s) handed out, {nf} are being written)",
+                        {"kind": "trr_sched", "case": desc, "file_hex": data.hex(), "sizes_while_running": list(prefix),
+                         "final_size": total, "observations": "".join(w.kinds), "events": w.events[:60]}, True)
+            for (prefix, fin, y, exn, w) in leaves:
+                stats["sched_runs"] += 1
+                ctx.count(("trr_sched", en, db, na, nf, bl, prefix, fin), nontrivial=True)
+                bad = sched_oracle(y, exn, w, frames, fin)
+                reqs.append(f"trs 1 {head} {lay} {','.join(map(str, prefix)) or '-'} {fin}")
+                metas.append((desc, data, frames, prefix, fin, len(y), exn, "".join(w.kinds), list(w.events), w.pos_ok, bad,
+                              fin in bounds))
+    finally:
+        H.restore()
+    outs = runner.run(reqs)
+    n_dis = 0
+    or_fail, dis = [], []
+    for req, mo, (desc, data, frames, prefix, fin, ny, exn, kinds, events, pos_ok, bad, at_boundary) in zip(reqs, outs, metas):
+        parts = mo.split("|")
+        if mo.startswith("ERR") or len(parts) != 3:
+            n_dis += 1
+            if n_dis <= MAXV:
+                ctx.violation(f"model runner failed on a TRR schedule: {mo[:200]}", {"request": req[:300], "case": desc}, False)
+            continue
+        pcs, fin_state, mev = parts
+        if "G:" in mev:
+            # GROMACS ended with code 0 INSIDE a frame and read_remaining_trr is reached: outside the
+            # property (the output is never completed); the real function raises struct.error there
+            stats["sched_outside"] += 1
+            if at_boundary:
+                n_dis += 1
+                ctx.violation("the TRR model reads a partial frame although the final size is a frame boundary",
+                              {"request": req[:300], "model": mo[:400], "case": desc}, False)
+            continue
+        stats["sched_compared"] += 1
+        payload = {"kind": "trr_sched", "case": desc, "file_hex": data.hex(), "sizes_while_running": list(prefix),
+                   "final_size": fin, "frames_completely_on_disk": sum(1 for fr in frames if fr["end"] <= fin),
+                   "frames_handed_out": ny, "exception": exn,
+                   "observations": kinds + "   (p = check_poll, s = getsize; the first " + str(len(prefix))
+                                   + " see GROMACS running, the others see it ended with code 0)",
+                   "events": events[:60], "model": mo[:600]}
+        if bad:
+            or_fail.append((bad, payload))
+        m_kinds = "".join(PC_KIND.get(c, "") for c in pcs)
+        fpc, fbr = fin_state.split(" ")[0], fin_state.split(" ")[1]
+        impl_line = f"{kinds}|. {pos_ok}|{','.join(events) or '-'}"
+        model_line = f"{m_kinds}|{fpc} {fbr}|{mev}"
+        if impl_line != model_line or exn:
+            dis.append((bool(bad), dict(payload, correspondence="c13 runner (trr_sched) vs GromacsRunner.get_gromacs_frames",
+                                        request=req[:400], impl=impl_line[:600], model_canon=model_line[:600])))
+    n_or_fail = len(or_fail)
+    # the shortest failing schedules first
+    or_fail.sort(key=lambda t: (len(t[1]["sizes_while_running"]), t[1]["case"]["bytes"]))
+    for bad, payload in or_fail[:MAXV]:
+        ctx.violation(f"C13 statement fails on the implementation (GROMACS TRR loop, writer/reader interleaving): {bad}", payload, True)
+    n_dis += len(dis)
+    dis.sort(key=lambda t: (not t[0], len(t[1]["sizes_while_running"])))
+    for _hasbad, payload in dis[:MAXV]:
+        ctx.violation(
+            "correspondence model/implementation broken for the GROMACS TRR loop (observation-level model trr_step) on "
+            f"{len(dis)} schedule(s); " + (f"the property oracle found {n_or_fail + n_early} failing schedule(s), see the other replays"
+                                           if n_or_fail + n_early else "the property oracle found no failing input"),
+            payload, False)
+    stats["disagreements"] += n_dis
+    stats["oracle_failures"] += n_or_fail + n_early
+    if reqs:
+        i = len(reqs) * 2 // 3
+        ctx.sample({"trr_schedule_request": reqs[i][:200], "model": outs[i][:300], "impl_observations": metas[i][7], "impl_events": metas[i][8][:12]})
+    return len(plans)
+
+
 # --------------------------------------------------------------------------- the check
 
 def malformed_files(rng):
@@ -667,7 +1058,8 @@ def run(ctx):
     tmp = scratch()
     path = os.path.join(tmp, "traj.dat")
     stats = {k: 0 for k in ("polls", "files", "in_domain_files", "generator_outside_domain", "compared", "disagreements",
-                            "oracle_failures", "trr_raw", "trr_runs", "trr_compared")}
+                            "oracle_failures", "trr_raw", "trr_runs", "trr_compared",
+                            "sched_runs", "sched_compared", "sched_outside", "sched_states")}
     try:
         # ---- a missing file is "nothing on disk yet"
         for kind, fn in (("xyz", P.xyz_reader), ("lmp", P.lammpstrj_reader)):
@@ -754,6 +1146,7 @@ def run(ctx):
 
         # ---- GROMACS TRR
         head = run_trr(ctx, runner, G, path, rng, ctx.tier, stats)
+        n_sched_files = run_trr_sched(ctx, runner, G, rng, ctx.tier, stats)
     finally:
         common.rmtree(tmp)
 
@@ -770,26 +1163,36 @@ def run(ctx):
         "EVERY byte cut c of the file, as a two-poll experiment with one reader object (file = first c bytes, then the whole file), + %d seeded random non-decreasing poll sequences per file; "
         "all id permutations of up to %d LAMMPS atoms (every cut); all pairs of cuts (then the whole file) of the smallest files; %d malformed files (tie only). "
         "TRR: both byte orders x both precisions x atoms/frames grid x 8 block subsets: the raw functions on every truncation of the first frame, the driven loop for every cut (file has c bytes, is then completed) "
-        "+ random multi-step growth scripts + frame-boundary/TRR_HEAD_SIZE +-1 scripts. A case = one poll sequence / one growth script; distinct by (file parameters, cuts); all are non-trivial (each runs the real reader)."
-        % (variants, nrand, 4 if quick else 5, len(mal)))
+        "+ random multi-step growth scripts + frame-boundary/TRR_HEAD_SIZE +-1 scripts. "
+        "TRR writer/reader interleavings: %d files (8+ frame shapes with frame size below/around/above TRR_HEAD_SIZE x 2,3,4 frames x both precisions, byte order alternating); positions = 0, every header end, "
+        "every frame end and TRR_HEAD_SIZE +-1(+-2 for two frames), the middle of every header and of every data block; EXHAUSTIVE over: the position reached before each getsize/check_poll observation "
+        "(non-decreasing), the observation at which GROMACS is first seen ended (code 0; any observation of any program point, in particular between the 'data not ready' getsize and the check_poll that follows), "
+        "and the final size (every position: frame boundaries = fewer frames written, inside a header, inside a data block); states with identical (line, locals, attributes, offset, bytes on disk) merged. "
+        "A case = one poll sequence / one growth script / one schedule (answers while running, final size); distinct by (file parameters, cuts); all are non-trivial (each runs the real reader)."
+        % (variants, nrand, 4 if quick else 5, len(mal), n_sched_files))
     ctx.cov["correspondence"] = {
         "text_poll_sequences_compared": stats["compared"], "text_polls_run": stats["polls"], "text_files": stats["files"],
         "files_inside_theorem_domain(proved-sound checker)": stats["in_domain_files"],
         "trr_loop_runs_compared": stats["trr_compared"], "trr_raw_truncations": stats["trr_raw"],
+        "trr_schedules_run": stats["sched_runs"], "trr_schedules_compared_with_trr_step": stats["sched_compared"],
+        "trr_schedules_outside_property(code-0 exit inside a frame reaching read_remaining_trr)": stats["sched_outside"],
+        "trr_schedule_states_expanded": stats["sched_states"],
         "disagreements": stats["disagreements"], "oracle_failures": stats["oracle_failures"],
-        "compared_fields": "per poll: exception class, current_position, returned frames (float64 bytes); TRR: header/data reads (offset, length, size observed), yields, bytes_read, final file offset",
+        "compared_fields": "per poll: exception class, current_position, returned frames (float64 bytes); TRR: header/data reads (offset, length, size observed), yields, bytes_read, final file offset; TRR schedules: additionally the sequence of check_poll/getsize calls (program points of trr_step)",
     }
     ctx.cov["trusted_base"] += [
         "extraction: ExtrOcamlBasic only; ocaml/util.ml + ocaml/c13_driver.ml (hex <-> ascii, frame interning)",
         "py/checks/c13.py: generators, ground truth (float() of the written tokens, frame end offsets), canonicalisation",
         "py/params_c13.py: TRR_HEAD_SIZE and TRR header sizes read from gromacs.py's AST",
         "scripted TRR writer: stand-in Popen object, gromacs.sleep / gromacs.os.path.getsize / read_trr_header / get_data wrapped (the real functions run inside the wrappers)",
+        "TRR schedules: in-memory append-only file object (read/tell/seek), poll() and getsize() answered from the schedule, sleep a no-op (no clock, no thread: deterministic); state merging keyed on the generator frame's line number and locals read through sys._getframe",
     ]
     ctx.assumptions += [
         "ASCII files without carriage returns; Python text-mode tell() = byte offset",
         "float()/numpy conversion of plain decimal tokens = py_float_ok automaton accepts them; values compared as float64 bit patterns of float(token)",
         "one atom count per file; LAMMPS ids within 1..N (theorem) — other ids are exercised for the tie only",
         f"TRR: one header size per file, not larger than TRR_HEAD_SIZE={head}; getsize never exceeds what will eventually be written; inode changes (reopen_file) not exercised",
+        "TRR schedules: the loop observes the writer only through check_poll() and os.path.getsize(); the file is append-only; a non-zero return code (check_poll raises, by design) and a code-0 exit inside a frame whose remainder reaches read_remaining_trr are outside the property",
     ]
 
 
@@ -831,6 +1234,23 @@ def replay(doc):
                   "\nbad reads:", log["bad_reads"][:5], "\nevents:", log["events"][:40])
             want = rp.get("case", {}).get("frames")
             rc = 1 if (exn or log["bad_reads"] or (want is not None and len(yielded) != want)) else 0
+        elif kind == "trr_sched":
+            data = bytes.fromhex(rp["file_hex"])
+            case = rp.get("case", {})
+            H = SchedHarness(G)
+            try:
+                y, exn, w = H.run(data, list(rp["sizes_while_running"]), rp["final_size"])
+            finally:
+                H.restore()
+            want = rp.get("frames_completely_on_disk")
+            print("file:", len(data), "bytes,", case.get("frames"), "frames of", case.get("frame_bytes"), "bytes (header", case.get("header_bytes"), ")")
+            print("bytes on disk at the observations made while GROMACS runs:", rp["sizes_while_running"])
+            print("then GROMACS has exited with code 0 and", rp["final_size"], "bytes are on disk")
+            print("observations (p = check_poll, s = getsize):", "".join(w.kinds))
+            print("events:", w.events[:60])
+            print("exception:", exn, "\nframes handed out:", len(y), " frames completely on disk:", want, "\nbad reads:", w.bad_reads[:5])
+            rc = 1 if (exn or w.bad_reads or (want is not None and len(y) != want)) else 0
+            print("FAILS" if rc else "ok")
         elif kind == "trr_raw":
             data = bytes.fromhex(rp["file_hex"])
             c = rp["cut"]
